@@ -23,13 +23,13 @@ def type_boundary_coeffs():
 TYPE_MAXIMA = ((1 << 31) - 1, (1 << 32) - 1, (1 << 63) - 1, (1 << 64) - 1, M, (1 << 128) - 1)
 
 
-def type_scaled_thresholds():
+def type_scaled_thresholds(kmax=18):
     """(value, k): floor(T / 10^k) + d for the maxima T of the primitive types, k = 1..18, d = -2..2, both signs -
     the thresholds of "does it still fit after scaling by 10^k" tests for every integer width."""
     out = []
     for T in TYPE_MAXIMA:
-        for k in range(1, 19):
-            base = T // P10[k]
+        for k in range(1, kmax + 1):
+            base = T // 10 ** k
             for d in (-2, -1, 0, 1, 2):
                 v = base + d
                 if 0 < v <= M:
@@ -337,4 +337,39 @@ def modinv_boundary_all(rng):
                     c = m << z
                     if 0 < c <= M:
                         out.append((c, n))
+    return out
+
+
+def trunc_twins(rng, c):
+    """Values that agree with c in their low 32 / 64 / 96 bits (c + k * 2^w, |result| <= M): what a comparison or
+    predicate that looks at a truncated coefficient cannot tell from c."""
+    out = []
+    for w in (32, 64, 64, 96):
+        for k in (1, -1, 2, rng.randrange(1, 1 << (126 - w)), -rng.randrange(1, 1 << (126 - w)),
+                  1 << rng.randrange(0, 126 - w)):
+            t = c + (k << w)
+            if abs(t) <= M and t != c:
+                out.append(t)
+    return out
+
+
+def limb_quotient_values(rng, sh, n=40):
+    """Coefficients q * 10^sh + r whose kept part q (after cutting sh digits) has binary-structured limbs - low limb
+    within a few units of wrapping, tiny, or zero, so that limb sums carry - with every residue of q mod 5 and mod 2,
+    and r in {1, half, half +- 1, 10^sh - 1, random, 0}. Positive, <= M."""
+    t = 10 ** sh
+    out = []
+    for _ in range(n):
+        q = limb_structured(rng)
+        if rng.random() < 0.5:
+            # large high limb, low limb a few units below 2^64: hi + lo carries out of 64 bits
+            hi = rng.getrandbits(rng.randrange(1, 63))
+            q = (hi << 64) + (1 << 64) - 1 - rng.randrange(0, max(1, min(hi, 1000)))
+        q %= (M // t) + 1
+        q -= q % 5
+        for res in range(5):
+            r = rng.choice((1, t // 2, t // 2 + 1, t // 2 - 1, t - 1, rng.randrange(0, t), 0))
+            c = (q + res) * t + r
+            if 0 < c <= M:
+                out.append(c)
     return out
